@@ -5,6 +5,7 @@ import DnsVerif.Lemmas.SoundMsg
 import DnsVerif.Lemmas.CompleteMsg
 import DnsVerif.Lemmas.EncSpecBodies
 import DnsVerif.Lemmas.RTElem
+import DnsVerif.Lemmas.ExtraA
 
 /-! # C16 — SVCB/HTTPS records follow the RFC 9460 wire rules
 
@@ -16,7 +17,10 @@ port = 2 octets, hints = multiples of 4 / 16, ech = 2-octet length + exactly tha
 7..=65534 opaque) — sound and complete, so a value whose length does not fit its format is not accepted;
 the parameter list of an accepted record is a key-sorted permutation of the wire list without duplicates;
 the encoder emits each parameter in that format with `mandatory` sorted (`SvcParam.norm`).
-Class IN and the alias form are in `RDataAt.svcbAlias/svcbService` + `classOk` (C03 `accepted_in_only`). -/
+Class IN and the alias form are in `RDataAt.svcbAlias/svcbService` + `classOk` (C03 `accepted_in_only`).
+Part 3 (emission): `svcb_emit_sorted` / `svcb_emit_sorted_from` — the parameters are ON THE WIRE in the
+order of the parameter list, which has strictly increasing keys; `alias_no_params` — a priority-0 record
+is written without any parameter, whatever the value holds. -/
 
 namespace C16
 
@@ -178,5 +182,94 @@ theorem svcb_roundtrip {rr : RR} {b : Bytes} {prio : Nat} {target : Name} {param
     ∃ target' params' d, decodeRR b = .ok ({ rr with rd := .svcb prio target' params' }, d) ∧ d.off = b.length ∧
       ciEq target' target = true ∧ params'.map SvcParam.norm = params.map SvcParam.norm ∧
       params'.map SvcParam.key = params.map SvcParam.key ∧ keysSorted params' := RT.svcb_roundtrip hwf hrd h
+
+/-! ## The emitted wire order, and the alias form -/
+
+/-- **Every emitted SVCB / HTTPS record has its SvcParams in strictly increasing key order, without
+duplicates.** `b` = output of `RR::encode` on a well-formed record with body `svcb prio target ps`.
+Then `b` is: owner name (ending at `e0`), TYPE / CLASS IN / TTL / RDLENGTH, priority, target name
+(ending at `e1`), and from `e1` to the very end of `b` the parameters `ps` (each with its `mandatory`
+key list sorted, `SvcParam.norm`) one after the other IN THE ORDER OF THE LIST `ps` — `SvcParamsAt` is
+the wire list itself, not a permutation of it. That list has strictly increasing keys (`keysSorted`,
+spelled out as `Pairwise (· < ·)` on the keys: no key twice).
+Where sortedness comes from: the Rust value is a `BTreeSet` ordered by key; the model keeps it as a list
+and the set invariant `keysSorted ps` is part of the HYPOTHESIS `WfRR rr` (it is what `insertParam`, the
+only way to build such a list, maintains: `insertParam_sorted`). The writer walks the list front to back;
+the content of the theorem is that it neither reorders, drops nor repeats anything. For `prio = 0`
+`WfRR` forces `ps = []` and the parameter region is empty. -/
+theorem svcb_emit_sorted {rr : RR} {b : Bytes} {prio : Nat} {target : Name} {ps : List SvcParam}
+    (hwf : WfRR rr) (hrd : rr.rd = .svcb prio target ps) (h : encodeRR rr = .ok b) :
+    (∃ owner' e0 rdlen tg' e1, owner'.lower = rr.name.lower ∧ NameRefAt b true 0 owner' e0 ∧ rdlen < 65536 ∧
+      BytesAt b e0 (beBytes 2 rr.ty ++ beBytes 2 1 ++ beBytes 4 rr.ttl ++ beBytes 2 rdlen) ∧
+      b.length = e0 + 10 + rdlen ∧ BytesAt b (e0 + 10) (beBytes 2 prio) ∧
+      tg'.lower = target.lower ∧ NameRefAt b true (e0 + 12) tg' e1 ∧ e1 ≤ b.length ∧
+      SvcParamsAt b b.length e1 (ps.map SvcParam.norm)) ∧
+    keysSorted (ps.map SvcParam.norm) ∧
+    ((ps.map SvcParam.norm).map SvcParam.key).Pairwise (· < ·) ∧
+    (ps.map SvcParam.norm).map SvcParam.key = ps.map SvcParam.key :=
+  let ⟨h1, h2, h3⟩ := ExtraA.svcb_emit_fresh hwf hrd h
+  ⟨h1, h2, h3, ExtraA.map_norm_key ps⟩
+
+/-- the same inside a message: `Encoder::rr` from ANY encoder state `e` satisfying the compression-table
+invariant (`EInv`, kept by all writers: `Reach`); the old output is kept, and the statement holds in every
+buffer that agrees with the new output on the frozen positions (in particular in the new output itself
+and in every extension of it) -/
+theorem svcb_emit_sorted_from {S : Nat → Prop} {e e' : Enc} {rr : RR} {prio : Nat} {target : Name}
+    {ps : List SvcParam} (hinv : EInv S e) (hwf : WfRR rr) (hrd : rr.rd = .svcb prio target ps)
+    (h : encRR e rr = .ok e') :
+    e.out <+: e'.out ∧ keysSorted (ps.map SvcParam.norm) ∧
+    ((ps.map SvcParam.norm).map SvcParam.key).Pairwise (· < ·) ∧
+    ∀ buf', Agree (ext S e.out.length e'.out.length) e'.out buf' →
+      ∃ owner' e0 rdlen tg' e1, owner'.lower = rr.name.lower ∧ NameRefAt buf' true e.out.length owner' e0 ∧
+        rdlen < 65536 ∧
+        BytesAt buf' e0 (beBytes 2 rr.ty ++ beBytes 2 1 ++ beBytes 4 rr.ttl ++ beBytes 2 rdlen) ∧
+        e'.out.length = e0 + 10 + rdlen ∧ BytesAt buf' (e0 + 10) (beBytes 2 prio) ∧
+        tg'.lower = target.lower ∧ NameRefAt buf' true (e0 + 12) tg' e1 ∧ e1 ≤ e'.out.length ∧
+        SvcParamsAt buf' e'.out.length e1 (ps.map SvcParam.norm) := ExtraA.svcb_emit hinv hwf hrd h
+
+/-- **No parameters in alias form (priority 0).** From every encoder state, for every owner, TYPE, class,
+TTL, target and parameter list `ps`: the record with body `svcb 0 target ps` is written exactly like the
+one with `svcb 0 target []` (TYPE 64 / 65: the alias form; any other TYPE: the same error on both sides).
+General form of the known finding K4b (`C08.K4b_witness`): the parameters are silently dropped. -/
+theorem alias_no_params (e : Enc) (name : Name) (ty cls ttl : Nat) (target : Name) (ps : List SvcParam) :
+    encRR e ⟨name, ty, cls, ttl, .svcb 0 target ps⟩ = encRR e ⟨name, ty, cls, ttl, .svcb 0 target []⟩ ∧
+    encodeRR ⟨name, ty, cls, ttl, .svcb 0 target ps⟩ = encodeRR ⟨name, ty, cls, ttl, .svcb 0 target []⟩ :=
+  ⟨ExtraA.alias_no_params e name ty cls ttl target ps, ExtraA.alias_no_params_encode name ty cls ttl target ps⟩
+
+/-! ### Non-vacuity -/
+
+/-- `a. HTTPS 1 b. alpn=h2 port=443` -/
+private def exHttps : RR := ⟨[[97]], 65, 1, 300, .svcb 1 [[98]] [.alpn [[104, 50]], .port 443]⟩
+
+private theorem wfName1 (c : UInt8) (hc : c = 97 ∨ c = 98) : WfName [[c]] := by
+  refine ⟨?_, by rcases hc with rfl | rfl <;> decide, ?_⟩
+  · intro l hl; simp at hl; subst hl; simp [wfLabel]
+  · intro l hl; simp at hl; subst hl; rcases hc with rfl | rfl <;> decide
+
+private theorem exHttps_wf : WfRR exHttps := by
+  refine ⟨⟨⟨true, rfl⟩, by decide, wfName1 98 (.inr rfl), ⟨by decide, trivial⟩, fun p hp => ?_,
+    fun h => by simp at h⟩, wfName1 97 (.inl rfl), ⟨by decide, rfl⟩, by decide⟩
+  simp at hp
+  rcases hp with rfl | rfl
+  · intro s hs; simp at hs; subst hs; exact ⟨by decide, by decide⟩
+  · show 443 < 65536; decide
+
+/-- the hypotheses of `svcb_emit_sorted` hold of a record with two parameters; its output has `alpn`
+(key 1) before `port` (key 3) -/
+example : WfRR exHttps ∧ encodeRR exHttps = .ok [1, 97, 0, 0, 65, 0, 1, 0, 0, 1, 44, 0, 18, 0, 1, 1, 98, 0,
+    0, 1, 0, 3, 2, 104, 50, 0, 3, 0, 2, 1, 187] := ⟨exHttps_wf, rfl⟩
+
+example : ∃ e1, SvcParamsAt [1, 97, 0, 0, 65, 0, 1, 0, 0, 1, 44, 0, 18, 0, 1, 1, 98, 0,
+    0, 1, 0, 3, 2, 104, 50, 0, 3, 0, 2, 1, 187] 31 e1 [.alpn [[104, 50]], .port 443] := by
+  obtain ⟨⟨_, _, _, _, e1, _, _, _, _, _, _, _, _, _, h⟩, _⟩ := svcb_emit_sorted exHttps_wf rfl
+    (b := [1, 97, 0, 0, 65, 0, 1, 0, 0, 1, 44, 0, 18, 0, 1, 1, 98, 0, 0, 1, 0, 3, 2, 104, 50, 0, 3, 0, 2, 1, 187]) rfl
+  exact ⟨e1, h⟩
+
+/-- an alias record `a. HTTPS 0 b.` given two parameters: written as the bare alias form -/
+example : encodeRR ⟨[[97]], 65, 1, 300, .svcb 0 [[98]] [.alpn [[104, 50]], .port 443]⟩ =
+    .ok [1, 97, 0, 0, 65, 0, 1, 0, 0, 1, 44, 0, 5, 0, 0, 1, 98, 0] ∧
+    encodeRR ⟨[[97]], 65, 1, 300, .svcb 0 [[98]] []⟩ =
+    .ok [1, 97, 0, 0, 65, 0, 1, 0, 0, 1, 44, 0, 5, 0, 0, 1, 98, 0] :=
+  ⟨((alias_no_params {} [[97]] 65 1 300 [[98]] [.alpn [[104, 50]], .port 443]).2).trans rfl, rfl⟩
 
 end C16
